@@ -25,6 +25,7 @@ import (
 	"github.com/foxboron/go-uefi/efi/attributes"
 	efifs "github.com/foxboron/go-uefi/efi/fs"
 	"github.com/foxboron/go-uefi/efi/signature"
+	"github.com/foxboron/go-uefi/efi/util"
 	"github.com/foxboron/go-uefi/efivar"
 	"github.com/foxboron/go-uefi/efivarfs"
 	"github.com/foxboron/go-uefi/pkcs7"
@@ -53,6 +54,10 @@ func (s *failSigner) Sign(r io.Reader, d []byte, o crypto.SignerOpts) ([]byte, e
 		return nil, errInjected
 	}
 	return s.inner.Sign(r, d, o)
+}
+
+func mutating(op string) bool {
+	return strings.HasPrefix(op, "File.Write") || strings.HasPrefix(op, "File.Truncate") || op == "Fs.Remove" || op == "Fs.RemoveAll" || op == "Fs.Rename" || op == "Fs.Create"
 }
 
 // faultReaderAt fails its k-th ReadAt call (or every call from the k-th on).
@@ -241,6 +246,51 @@ func checkCase(c Case) error {
 		}
 		if ev := rec.Events(); len(ev) != 0 {
 			return fmt.Errorf("WriteSignedUpdate: the signer failed but the file system was touched: %s %s", ev[0].Op, ev[0].Path)
+		}
+		// every position of the signer-call sequence, also for an append update of a database with several lists
+		// (should the operation ever ask the signer more than once, a failure of a later call still writes nothing)
+		multi := signature.SignatureDatabase{}
+		for i := 0; i < 3; i++ {
+			l := signature.NewSignatureList(signature.CERT_X509_GUID)
+			if err := l.AppendBytes(util.EFIGUID{Data1: uint32(i + 1)}, bytes.Repeat([]byte{byte(0x30 + i)}, 40+7*i)); err != nil {
+				return fmt.Errorf("bad case: %v", err)
+			}
+			multi.AppendList(l)
+		}
+		for _, variant := range []struct {
+			name string
+			v    efivar.Efivar
+			m    efivar.Marshallable
+		}{
+			{"append update of three lists", efivar.Efivar{Name: v.Name, GUID: v.GUID, Attributes: v.Attributes | attributes.EFI_VARIABLE_APPEND_WRITE}, &multi},
+			{"update of three lists", v, &multi},
+		} {
+			count := &failSigner{inner: key}
+			okfs := efivarfs.NewFS()
+			okfs.SetFS(recfs.New(afero.NewMemMapFs(), "MemMapFS"))
+			if err := okfs.Open().WriteSignedUpdate(variant.v, variant.m, count, id.Cert); err != nil {
+				return fmt.Errorf("WriteSignedUpdate (%s) fails without any fault: %v", variant.name, err)
+			}
+			points = append(points, tally{"WriteSignedUpdate/signer (" + variant.name + ")", count.calls})
+			for k := 1; k <= count.calls+1; k++ {
+				fault("WriteSignedUpdate/signer", k, "error")
+				rec := recfs.New(afero.NewMemMapFs(), "MemMapFS")
+				ffs := efivarfs.NewFS()
+				ffs.SetFS(rec)
+				fsig := &failSigner{inner: key, failAt: k}
+				err := ffs.Open().WriteSignedUpdate(variant.v, variant.m, fsig, id.Cert)
+				if fsig.calls < k {
+					continue // the operation did not issue a k-th call
+				}
+				if err == nil {
+					return fmt.Errorf("WriteSignedUpdate (%s): call %d of the signer failed but the update reported success", variant.name, k)
+				}
+				for _, ev := range rec.Events() {
+					if mutating(ev.Op) || ev.Op == "Fs.OpenFile" {
+						return fmt.Errorf("WriteSignedUpdate (%s): call %d of the signer failed, yet the file system was written to: %s %s", variant.name, k, ev.Op, ev.Path)
+					}
+				}
+			}
 		}
 	}
 
@@ -542,9 +592,12 @@ func checkCase(c Case) error {
 					continue
 				}
 				if err == nil {
-					if !op.write && at.Op == "File.Close" {
-						// a Close failure after a fully successful read: the value is not in doubt (os.ReadFile behaves the same); recorded, not raised
-						hx.Class("close_failure_after_successful_read_not_reported")
+					if !op.write && (at.Op == "File.Close" || at.Op == "File.Stat") {
+						// A Close failure after a fully successful read, or a failing Stat whose answer is only a hint
+						// (how large to make the buffer): the value is not in doubt (os.ReadFile / afero.ReadFile behave
+						// the same). Recorded, not raised - as long as the value returned is the right one; a reader
+						// that trusts a failed Stat and returns something else is reported.
+						hx.Class(strings.ToLower(strings.TrimPrefix(at.Op, "File.")) + "_failure_on_the_read_path_not_reported_value_correct")
 						if !okv {
 							return fmt.Errorf("%s: %s (call %d of %d) failed and a wrong value was returned", op.name, at.Op, k, n)
 						}
